@@ -24,10 +24,14 @@ import sys
 import time
 
 ROOT = os.path.dirname(os.path.dirname(os.path.abspath(__file__)))
-REPO = os.environ.get("VERIF_REPO", "/repo")
+REPO = os.path.realpath(os.environ.get("VERIF_REPO", "/repo"))
+ALT = REPO != "/repo"          # sensitivity runs against a scratch worktree: separate outputs, /repo untouched
+ALTTAG = ("alt-" + hashlib.sha1(REPO.encode()).hexdigest()[:8]) if ALT else ""
 COQ = os.path.join(ROOT, "coq")
 BUILD = os.path.join(ROOT, "build")
-BIN = os.path.join(BUILD, "bin")
+BIN = os.path.join(BUILD, "bin", ALTTAG) if ALT else os.path.join(BUILD, "bin")
+OUTROOT = os.path.join(BUILD, ALTTAG) if ALT else ROOT      # evidence/ and replays/ live here
+RUNROOT = os.path.join(BUILD, ALTTAG) if ALT else BUILD
 HARNESS = os.path.join(ROOT, "harness")
 GOENV = dict(os.environ, GOFLAGS="-mod=mod", GOPROXY="off", GOSUMDB="off",
              GOTOOLCHAIN="local", CGO_ENABLED="1")
@@ -188,6 +192,14 @@ def go_build(pkg, out, tags="verif", timeout=900):
         if not os.path.exists(gosum_dst) or open(gosum_src).read() != open(gosum_dst).read():
             shutil.copy(gosum_src, gosum_dst)
     cmd = ["go", "build", "-tags", tags, "-o", out, pkg]
+    if ALT:
+        md = os.path.join(BUILD, ALTTAG, "mod")
+        os.makedirs(md, exist_ok=True)
+        gm = open(os.path.join(HARNESS, "go.mod")).read().replace("=> /repo", "=> " + REPO)
+        open(os.path.join(md, "go.mod"), "w").write(gm)
+        if os.path.exists(gosum_src):
+            shutil.copy(gosum_src, os.path.join(md, "go.sum"))
+        cmd = ["go", "build", "-modfile=" + os.path.join(md, "go.mod"), "-tags", tags, "-o", out, pkg]
     rc, o, dt = sh(cmd, cwd=HARNESS, env=GOENV, timeout=timeout)
     return rc, o, dt
 
@@ -202,10 +214,25 @@ def parse_mismatches(out):
 
 
 def load_known():
-    p = os.path.join(ROOT, "known_findings.json")
-    if not os.path.exists(p):
-        return {"findings": [], "fixed": []}
-    return json.load(open(p))
+    """known_findings.json (aggregate, committed) plus known_findings.d/*.json (per property)."""
+    res = {"findings": [], "fixed": []}
+    seen = set()
+    paths = [os.path.join(ROOT, "known_findings.json")] + sorted(glob.glob(os.path.join(ROOT, "known_findings.d", "*.json")))
+    for p in paths:
+        if not os.path.exists(p):
+            continue
+        try:
+            d = json.load(open(p))
+        except Exception as e:
+            print("warning: cannot read %s: %s" % (p, e))
+            continue
+        for sec in ("findings", "fixed"):
+            for f in d.get(sec, []):
+                k = (sec, f.get("property"), f.get("key"), f.get("commit"))
+                if k not in seen:
+                    seen.add(k)
+                    res[sec].append(f)
+    return res
 
 
 def is_known(known, pid, key):
@@ -231,8 +258,8 @@ def run_check(pid, tier, seed, replay=None):
     if tier == "thorough":
         tcfg.update(cfg.get("thorough", {}))
     n = int(os.environ.get("VERIF_N", tcfg.get("n", 500)))
-    rundir = os.path.join(BUILD, pid, "run-" + tier)
-    workdir = os.path.join(BUILD, pid, "work-" + tier)
+    rundir = os.path.join(RUNROOT, pid, "run-" + tier)
+    workdir = os.path.join(RUNROOT, pid, "work-" + tier)
     for d in (rundir, workdir):
         shutil.rmtree(d, ignore_errors=True)
         os.makedirs(d)
@@ -362,8 +389,8 @@ def run_check(pid, tier, seed, replay=None):
     replay_path = None
     if new_viol or problems:
         exit_code = 1
-        os.makedirs(os.path.join(ROOT, "replays"), exist_ok=True)
-        replay_path = os.path.join(ROOT, "replays", "%s-%s-seed%d.json" % (pid, tier, seed))
+        os.makedirs(os.path.join(OUTROOT, "replays"), exist_ok=True)
+        replay_path = os.path.join(OUTROOT, "replays", "%s-%s-seed%d.json" % (pid, tier, seed))
         rep = {"property": pid, "tier": tier, "seed": seed, "n": n,
                "replay_cmd": "VERIF_SEED=%d ./check %s --tier %s" % (seed, pid, tier)}
         if new_viol:
@@ -406,7 +433,7 @@ def run_check(pid, tier, seed, replay=None):
     ev = {"property_id": pid, "tier": tier, "seed": seed, "level": cfg.get("level", "proof"),
           "coverage": cov, "assumptions": cfg.get("assumptions", []), "wall_s": round(wall, 2),
           "violations": len(new_viol) + (1 if (problems and not new_viol) else 0)}
-    write_json(os.path.join(ROOT, "evidence", pid + ".json"), ev)
+    write_json(os.path.join(OUTROOT, "evidence", pid + ".json"), ev)
     for ln in lines:
         print(ln)
     print("[check %s] tier=%s seed=%d obligations=%d/%d model_cases=%d evaluations=%d known=%d new_violations=%d broken=%d wall=%.1fs"
